@@ -90,7 +90,8 @@ struct variant {
 		// Instead we perform a destruct-then-move-construct operation on the internal object.
 		// Note that we take the argument by value so there are no self-assignment problems.
 		if(tag_ == other.tag_) {
-			assign_<0>(std::move(other));
+			if(*this)
+				assign_<0>(std::move(other));
 		} else {
 			if(*this)
 				destruct_<0>();
